@@ -61,11 +61,14 @@ def main():
     tool = mon.DEBUGGER_ID
     mon.use_tool_id(tool, 'vf-crash')
     seen = [0]
+    where = []
 
-    def line(code, _lineno):
+    def line(code, lineno):
         if code not in targets:
             return mon.DISABLE
         seen[0] += 1
+        if k < 0:
+            where.append(f'{code.co_name}:{lineno}')
         if seen[0] == k:
             os._exit(77)
         return None
@@ -77,6 +80,7 @@ def main():
     mon.set_events(tool, 0)
     dawgie.db.close()
     print('LINES', seen[0])
+    print('WHERE', ' '.join(where))
     sys.stdout.flush()
     os._exit(0)
 
